@@ -22,7 +22,7 @@ CHECKS = {
    "Per idempotency key, counted both by the key stored on entries and by the requests that carried it: at most one effect over all generations; every success returns the single stored outcome. Workload: groups sharing a key, sequential, concurrent and as retries after crashes between commit and acknowledgement; lookups are served from stored bytes through the repository's ToCore.",
    "a panic inside a client call counts as an error response (as the HTTP recoverer would answer)"),
  "C08": ("exploration", "6.C08",
-   "Only the cache / concurrency clause of C08: every committed transaction of a balance-independent script equals what a fresh compiler.Compile of the same text yields when run alone at its log position (postings, tx metadata, account metadata), under cache sizes 1 and 1024 (every miss/evict path, every hit path), concurrent use of one cached program and two ledgers sharing one Compiler. Does NOT decide source-level correctness of compiler/VM (pure function of the program: not a simulation target).",
+   "Only the cache / concurrency clause of C08: every committed transaction of a balance-independent script equals what a fresh compiler.Compile of the same text yields when run alone at its log position (postings, tx metadata, account metadata), under cache sizes 1 and 96 (= larger than any run can fill: every miss/evict path, every hit path), concurrent use of one cached program and two ledgers sharing one Compiler. Does NOT decide source-level correctness of compiler/VM (pure function of the program: not a simulation target).",
    "reference = the same compiler/VM run sequentially; blind to a bug present in both"),
  "C10": ("exploration", "6.C10",
    "On the persisted log: each REVERTED_TRANSACTION targets an earlier transaction, its postings are exactly the original's reversed and swapped, its marker names the target, at most one revert entry and one successful revert response per target over all generations, unforced reverts never overdraw at their log position, untouched accounts return to their previous balance. Workload races 1-4 reverts of the same id (forced/unforced, with/without key) against spenders, with restarts in between.",
